@@ -70,7 +70,8 @@ REQUIRED = ["op:gbk:dump-compare", "op:gbk:fixed-point", "op:gbk:write-repeatabl
             "class:asdomain", "class:cds-motif", "class:prepeptide", "class:prepeptide-leader-core-tail",
             "class:module", "class:module-multi-cds", "class:region>=2-candidates", "class:t2pks",
             "class:header-reference", "class:external-cds-motif", "class:candidate-without-structure-after-one-with",
-            "class:origin-region-with-split-numbering", "class:same-span-genes-on-both-strands"]
+            "class:origin-region-with-split-numbering", "class:same-span-genes-on-both-strands",
+            "class:module-added-after-a-first-conversion"]
 
 
 # --------------------------------------------------------------------------------------------------
@@ -755,8 +756,20 @@ def count_classes(ctx, facts: dict, spec: dict):
 
 def run_case(ctx, spec: dict):
     case = {"spec": spec}
+    # every third record with modules is converted once before its modules are added (the pipeline writes the results
+    # JSON, annotates further and then writes GenBank): what was converted earlier must not stick
+    late = bool(spec.get("modules")) and spec["seq_seed"] % 3 == 0
     try:
-        record = A.build_from_spec(spec)
+        record = A.build_from_spec(dict(spec, _hold_modules=True) if late else spec)
+        if late:
+            for _fmt, (write, _read, _forward) in FORMATS.items():
+                ctx.guard("early-write-crash", case, write, record)
+            added = 0
+            for module in list(A.PENDING_MODULES):
+                record.add_module(module)
+                added += 1
+            if added:
+                ctx.count("class:module-added-after-a-first-conversion")
     except ValueError as err:
         # the pipeline itself refuses the layout (e.g. create_regions: "regions cannot overlap"): no record exists
         # to round-trip; counted, not judged here (region formation is C06's subject)
